@@ -19,8 +19,8 @@ EXTENDS Naturals, Integers, Sequences, FiniteSets, TLC, Json, IOUtils
 Batch  == JsonDeserialize(IOEnv.TRACE_FILE)
 Traces == Batch.traces
 
-VARIABLES tid, l, cs, hit, killed, fincnt, relcnt, errs, fin
-vars == <<tid, l, cs, hit, killed, fincnt, relcnt, errs, fin>>
+VARIABLES tid, l, cs, hit, killed, fincnt, relcnt, spawned, errs, fin
+vars == <<tid, l, cs, hit, killed, fincnt, relcnt, spawned, errs, fin>>
 
 T      == Traces[tid]
 Ev     == T.events
@@ -36,6 +36,7 @@ Init ==
   /\ hit = {} /\ killed = {}
   /\ fincnt = [t \in Uids |-> 0]
   /\ relcnt = [t \in Uids |-> 0]      \* unschedule messages delivered to the scheduler, per task
+  /\ spawned = {}                     \* tasks for which a process was started
   /\ errs = {} /\ fin = FALSE
 
 \* what the task's own description / process makes it end as, if nobody cancels it
@@ -54,6 +55,7 @@ Step ==
      /\ cs' = ncs /\ hit' = h2 /\ killed' = k2
      /\ fincnt' = [t \in Uids |-> IF ncs[t] \in Final /\ cs[t] \notin Final THEN fincnt[t] + 1 ELSE fincnt[t]]
      /\ relcnt' = [t \in Uids |-> IF t \in SeqSet(e.rel) THEN relcnt[t] + 1 ELSE relcnt[t]]
+     /\ spawned' = spawned \cup SeqSet(e.spawned)
      /\ errs' = errs
           \* an exception escaped a component or the client callback
           \cup E(e.err = "none", "C05.ComponentDied")
@@ -64,6 +66,10 @@ Step ==
           \* C01, end to end: the processes running at any moment never use more cores than the pilot has
           \* (a task that keeps running after its slots were given back shows up here)
           \cup E(e.live <= T.ncores, "C01.RunningExceedsPilot")
+          \* a task the application was told is final is not started (again) afterwards: the final
+          \* state would not tell the truth; and no task gets a second process
+          \cup UNION {E(cs[t] \notin Final, "C05.RunsAfterFinal") : t \in SeqSet(e.spawned)}
+          \cup UNION {E(t \notin spawned, "C07.SpawnedTwice") : t \in SeqSet(e.spawned)}
           \* only named tasks are killed
           \cup UNION {E(t \in Named, "C08.KilledNotNamed") : t \in SeqSet(e.killed)}
           \cup (IF e.ev = "end" THEN
@@ -99,7 +105,7 @@ Step ==
 Finish ==
   /\ ~fin /\ l > Len(Ev) /\ fin' = TRUE
   /\ PrintT(<<"RESULT", T.tid, errs \cup UNION {E(fincnt[t] <= 1, "C05.FinalTwice") : t \in Uids}>>)
-  /\ UNCHANGED <<tid, l, cs, hit, killed, fincnt, relcnt, errs>>
+  /\ UNCHANGED <<tid, l, cs, hit, killed, fincnt, relcnt, spawned, errs>>
 
 Next == Step \/ Finish
 Spec == Init /\ [][Next]_vars
